@@ -1051,6 +1051,8 @@ def coerce(w, kind):
     return w
   if kind is KInt and isinstance(w, VInt):
     return w
+  if kind is KInt and isinstance(w, VBool):
+    return VInt(z3.If(w.e, z3.IntVal(1), z3.IntVal(0)))
   if kind is KStr and isinstance(w, VStr):
     return w
   if kind is KStrN and isinstance(w, VStr):
